@@ -173,7 +173,8 @@ func DecryptWithEd25519(
 	if len(tPrivKey) != 64 {
 		return nil, errors.Errorf("unexpected ed25519 private key len: %d", len(tPrivKey))
 	}
-	if len(ciphertext) < 34 {
+	// ciphertext: msgNonce[:4] + aes256(msgPubKey) + chacha20poly1305 tag + ...
+	if len(ciphertext) < 4+32+chacha20poly1305.Overhead {
 		return nil, ErrShortMessage
 	}
 
